@@ -73,6 +73,23 @@ func c13Decorate(r *rand.Rand, in *DataInput) {
 			}
 		}
 	}
+	// a replace-type entry for a package-level type of the source package that has the *name of a type parameter*
+	// of a generic interface: parameters of the type parameter's type are not of that named type and stay
+	for i := range in.Ifaces {
+		it := &in.Ifaces[i]
+		if len(it.TypeParams) == 0 || r.Intn(2) == 0 {
+			continue
+		}
+		tp := it.TypeParams[0].Name
+		in.Replace = append(in.Replace, ReplaceJ{FromPkg: pkgSrc, FromName: tp, To: c13Targets[0]})
+		for j := range it.Methods {
+			m := &it.Methods[j]
+			if m.From == "" && !m.Variadic {
+				m.Params = append(m.Params, VarJ{Name: fmt.Sprintf("tpv%d", j), Type: TyJ{K: "typeparam", Name: tp}})
+			}
+		}
+		break
+	}
 	// a type that only an unrelated (recursive, with a listed sub-package) package replaces: it occurs in these
 	// signatures and must stay as it is
 	for _, s := range srcs {
